@@ -22,7 +22,7 @@ CLAIMED = {
     "C03": ("runtime formula monitor on conversions/views of factorised tensors; rejection monitor for invalid sets",
             "Seeded factor sets for six formats (tuple and wrapper form, both tenalg backends) are converted by the real code and "
             "compared with the defining contraction; every unfolding/vec/matrix/slice view, wrapper shape/rank and factor-based "
-            "norm (CP, Tucker, TT, TR wrappers) is compared with the reference dense tensor, also after a core / the factors, weights or core of a wrapper were replaced by item "
+            "norm (CP, Tucker, TT, TR wrappers; modes counted from either end; complex weights) is compared with the reference dense tensor, also after a core / the factors, weights or core of a wrapper were replaced by item "
             "assignment; 16 kinds of invalid sets must raise ValueError/IndexError. Sampled, small sizes.",
             "Trusted: numpy.einsum, explicit index-map unfolding.", "DESIGN.md §2 C03"),
     "C04": ("runtime before/after monitor: dense reconstruction preserved + canonical-form predicates on real transforms",
@@ -42,7 +42,7 @@ CLAIMED = {
             "feasible competitors; projections re-applied; convex operators tested for firm non-expansiveness. Sampled, sizes <= 8x4.",
             "Trusted: the harness' reference algorithms (cross-checked by the competitor search), numpy.linalg.", "DESIGN.md §2 C12"),
     "C13": ("runtime KKT-certificate monitor on solver returns + objective gap to an independent NNLS reference",
-            "Seeded well-conditioned problems with planted active/inactive constraints, cold, warm and far-away warm starts and l1/ridge penalties "
+            "Seeded well-conditioned problems (random, equicorrelated, circulant, integer-valued in integer arrays) with planted active/inactive constraints, cold, warm and far-away warm starts and l1/ridge penalties "
             "(private copies or shared read-only arrays, optionally after an aborted solve on the same arrays; ADMM with non-zero duals) "
             "are solved by the real HALS/FISTA/active-set/ADMM code under explicit budgets; each returned point gets a per-input "
             "optimality certificate (non-negativity, KKT from independent UtU/UtM, objective vs scipy NNLS). Convergence is "
@@ -62,9 +62,9 @@ CLAIMED = {
             "Trusted: exhaustive enumeration of matchings, NumPy definitions.", "DESIGN.md §2 C20"),
     "C06": ("iterate recorders (deterministic prefix runs + deep-copying callbacks) with from-scratch error recomputation",
             "For each seeded (algorithm, data class, rank, option set) configuration the real algorithm is run with n_iter_max=1..K, "
-            "once more stopped by its tolerance (and capped exactly at the sweep where the tolerance fires), masked CP-ALS included, and (where "
-            "offered) with a callback that deep-copies the iterate; a quarter of the runs go through the estimator classes, an eighth with "
-            "verbose output; every reported "
+            "once more stopped by its tolerance (and capped exactly at the sweep where the tolerance fires), masked CP-ALS, complex data and data in narrow integer dtypes included, and (where "
+            "offered) with a callback that deep-copies the iterate; a quarter of the runs go through the estimator classes (half of them with the estimator's own defaults), an eighth with "
+            "verbose output, a sixteenth with the einsum tensor algebra selected; every reported "
             "value is compared (on squares, absolute-value scale) with the independently recomputed error of the iterate it belongs "
             "to; lists must be prefixes of each other and have one value per sweep. 11 algorithms, orders 2-4, sizes 2-6, ranks 1-3.",
             "Trusted: independent einsum reconstructions. Masked variants excluded (not in the statement).", "DESIGN.md §2 C06"),
@@ -79,7 +79,7 @@ CLAIMED = {
             "Seeded configurations over 10 decomposition entry points, rank specifications (int/list/'same'/fraction), initialisations, "
             "iteration caps 0..K and tolerances that force convergence stops; shapes vs independently derived ranks, boundary ranks, "
             "orthonormality, core = projection (also from non-orthonormal user starts), TT left-orthogonality, PARAFAC2 projections/cross-products and the normalisation "
-            "contract are checked on every returned object. Sampled, orders 2-5.",
+            "contract (CP, both non-negative Tucker algorithms, PARAFAC2 with the scale judged against a twin run) are checked on every returned object. Sampled, orders 2-5.",
             "Trusted: independent rank derivations for int/list specs and the harness' own bisection for 'same'/fractions.", "DESIGN.md §2 C08"),
     "C09": ("runtime error-bound monitor: decomposition error vs independently computed singular-value tails of the input's unfoldings",
             "Seeded tensors (generic, exactly low multilinear/TT rank, rank-deficient, integer; orders 2-5) x rank vectors from all-ones "
@@ -120,20 +120,20 @@ CLAIMED = {
             "14 proximal operators, NNLS/ADMM solvers incl. the active-set restart path, regressors, random generators, initialisers, contrib "
             "decompositions, estimator classes, wrapper methods, preprocessing, metrics) are called with float32, float64 and (where "
             "conjugation is handled) complex128 inputs over seeded shapes/options; every floating array or NumPy scalar reachable "
-            "from the result must carry the input dtype (singular values of complex input may be real). Sampled.",
+            "from the result must carry the input dtype (singular values of complex input may be real); a third of the tensor-algebra-dependent entry points also run with the einsum tensor algebra selected. Sampled.",
             "Documented exemptions only (leverage scores float64, integer outputs, Python floats).", "DESIGN.md §2 C18"),
     "C17": ("history recording at the API boundary checked step-by-step against an executable non-deterministic reference model; bounded-exhaustive "
             "operation sequences + random histories + free-running stress with yield injection",
             "Worker threads execute set_backend / backend_context enter / exit (normal, by exception, newest- or oldest-first; a third of the operations inside a contextvars.Context.run callback) / rejected selections and rejected context entries one operation "
             "at a time under a controller; after every operation all threads report the backend they see (also under a copy of the acting thread's execution context), its identity and the instance "
-            "that executed a dispatched call; the set of model states consistent with all observations must stay non-empty. All sequences "
+            "that executed a dispatched call (for the tenalg manager also the package the reached implementation comes from); backends selected by name or as objects; the set of model states consistent with all observations must stay non-empty. All sequences "
             "up to length 4 (quick) / 5 (thorough) over 2 threads x 2 backends for both managers, random histories over 3 threads x 3 "
             "backends, cross-manager independence, and stress runs (switch interval 1e-6, sys.monitoring LINE yields inside set_backend, "
             "backend_context, current_backend and the dispatch wrapper) asserting only schedule-independent invariants: own view and the "
             "backend that executes a dispatched call.",
             "Stub backends (NumpyBackend subclasses named cupy/jax) stand in for uninstalled ones; GIL-atomic bytecodes not interleaved.", "DESIGN.md §2 C17"),
     "C15": ("aliasing/mutation sanitizer: byte-level argument snapshots before/after every depth-0 call of wrapped public entry points; fault injection",
-            "~200 public functions and estimator methods are wrapped by identity re-binding; for every call made by the harness each "
+            "~230 public functions, estimator methods and tensor-object methods (the object itself watched for the non-mutating ones) are wrapped by identity re-binding; for every call made by the harness each "
             "mutable argument (array bytes/dtype/shape and the base buffer of views, container identities, wrapper attributes) is "
             "snapshotted before and compared after the call returns or raises. Workloads: hostile argument kinds (views, read-only, "
             "lists/tuples/wrappers, masks, option lists, user inits), raising callbacks and backend failpoints (solve/svd/qr/dot/lstsq "
